@@ -238,6 +238,7 @@ void oracle_c02(Plan const& p, RunCtl const& ctl, std::vector<u64> const& seg_ca
         ld sum = 0, sumabs = 0, sumsq = 0;
         bool weights_ok = true;
         bool dom = true;   // all values inside the exponent range the tolerances are meant for
+        bool dom_high = true;   // nothing near overflow (values in the subnormal range carry an absolute error instead)
         std::vector<ld> adj(rv.adj.size(), 0.0L), adjabs(rv.adj.size(), 0.0L);
 
         for (auto const& pr : ic.recs)
@@ -255,6 +256,7 @@ void oracle_c02(Plan const& p, RunCtl const& ctl, std::vector<u64> const& seg_ca
             ld const val = round_to(p.nt, r.f * w);
             if (!std::isfinite(val)) continue;
             if (!in_domain(p.nt, val) || !in_domain(p.nt, val * val) || !in_domain(p.nt, val * val * w)) dom = false;
+            if (std::fabs(val) > huge_of(p.nt) || val * val > huge_of(p.nt) || std::fabs(val * val * w) > huge_of(p.nt)) dom_high = false;
             ++fin;
             sum += val;
             sumabs += std::fabs(val);
@@ -307,6 +309,23 @@ void oracle_c02(Plan const& p, RunCtl const& ctl, std::vector<u64> const& seg_ca
         if (!dom)
         {
             rep.probes["values-outside-exponent-range"]++;
+            // towards zero every operation of the numeric type is still exact to half of the smallest
+            // subnormal: the sums of squared, weighted values per bin / channel are compared with that
+            // absolute error per term (what underflows must not simply be left out)
+            if (dom_high && ic.recs.size() <= 100000)
+            {
+                ld const slack = (4.0L * N + 16.0L + 2.0L * out.ranks.size()) * eps;
+                ld const abs_err = 4.0L * (N + 4.0L) * denorm_of(p.nt);
+                for (std::size_t j = 0; j != adj.size(); ++j)
+                {
+                    if (!(std::fabs(rv.adj[j] - adj[j]) <= (slack + 16 * eps) * adjabs[j] + abs_err))
+                    {
+                        rep.fail("C02", "adjustment-data", key, fmt("iteration %llu entry %zu: %.21Lg reference %.21Lg (values in the subnormal range)",
+                            (unsigned long long) k, j, rv.adj[j], adj[j]));
+                        break;
+                    }
+                }
+            }
             continue;
         }
 
@@ -1307,6 +1326,14 @@ void oracle_c17(Plan const& p, RunOut const& out, ChkptView const& v, Report& re
                     return;
                 }
             }
+        }
+
+        // one integrand entry per sampled point (PLAIN / VEGAS: the record is made on entry)
+        if (!out.ranks.empty() && out.ranks[0].log_calls && ic.recs.size() != rv.calls)
+        {
+            rep.fail("C17", "integrand-entries", key, fmt("iteration %llu: %zu integrand entries for %llu sampled points",
+                (unsigned long long) k, ic.recs.size(), (unsigned long long) rv.calls));
+            return;
         }
 
         for (auto const& pr : ic.recs)
